@@ -36,6 +36,7 @@ size_t g_x, g_y, g_c;
 size_t g_fr;    /* file row of image row g_y */
 size_t g_in;    /* byte offset of that channel inside its file row */
 size_t g_oidx;  /* index of that channel in the Image buffer */
+size_t g_w, g_h; /* image dimensions (ghost copies, so that a counterexample carries them) */
 
 /* ------------------------------------------------------------------------------------------------------------------
  * loader, BI_RGB block:   if (header.info_header.compression == 0) { ... }
@@ -106,6 +107,7 @@ uint8_t g_pv;   /* value of the ghost channel in the Image buffer */
 void Image_save_bmp(const Image* self)
 __CPROVER_requires(__CPROVER_is_fresh(self, sizeof(Image)))
 __CPROVER_requires(1 <= self->width && self->width <= C06_DIM && 1 <= self->height && self->height <= C06_DIM && self->has_alpha == C06_ALPHA)
+__CPROVER_requires(g_w == (size_t)self->width && g_h == (size_t)self->height)
 __CPROVER_requires(__CPROVER_is_fresh(self->data.raw, (size_t)self->width * (size_t)self->height * C06_PB(C06_ALPHA)))
 __CPROVER_requires(verif_exc == 0 && g_wpos == 0 && g_wcalls == 0 && !g_wseen)
 __CPROVER_requires(g_x < (size_t)self->width && g_y < (size_t)self->height && g_c < C06_PB(C06_ALPHA))
@@ -138,6 +140,30 @@ __CPROVER_ensures((verif_exc == 0 && C06_SAVE_POS_MATCH(C06_ALPHA, self->width))
 #define C06_SAVE_INNER_INV                                                                               \
   (0 <= x && x <= self->width * 3 && x % 3 == 0 &&                                                       \
    ((g_fr == (size_t)(self->height - 1 - y) && g_x * 3 < (size_t)x) ==> row_data[g_x * 3 + C06_RGB_CHAN_BYTE(g_c)] == g_pv))
+#endif
+
+/* ------------------------------------------------------------------------------------------------------------------
+ * loader, header part: statements from `WindowsBitmapHeader header = {};` up to the allocation of the pixel buffer.
+ * ------------------------------------------------------------------------------------------------------------------ */
+#ifdef C06_HEADER
+uint32_t g_hsize;    /* biSize as delivered by the file (ghost copy taken right after it was read) */
+void Image_load_bmp_header(FILE* f, const char* sig, WindowsBitmapHeader* out_header, int32_t* out_w, int32_t* out_h, bool* out_rev)
+__CPROVER_requires(__CPROVER_is_fresh(sig, 2))
+__CPROVER_requires(__CPROVER_is_fresh(out_header, sizeof(WindowsBitmapHeader)))
+__CPROVER_requires(__CPROVER_is_fresh(out_w, sizeof(int32_t)))
+__CPROVER_requires(__CPROVER_is_fresh(out_h, sizeof(int32_t)))
+__CPROVER_requires(__CPROVER_is_fresh(out_rev, sizeof(bool)))
+__CPROVER_requires(sig[0] == 'B' && sig[1] == 'M' && verif_exc == 0 && g_fpos == 0)
+__CPROVER_assigns(verif_exc, g_fpos, g_reads, g_hsize, g_seek_to, *out_header, *out_w, *out_h, *out_rev)
+__CPROVER_ensures(verif_exc == 0 || verif_exc == EXC_io_error || verif_exc == EXC_runtime_error)
+/* accepted headers: BITMAPINFOHEADER (40) .. BITMAPV5HEADER (124) with 24/32 bpp, one plane; exactly the header bytes were consumed */
+__CPROVER_ensures(verif_exc == 0 ==> (out_header->file_header.magic == 0x4D42 && out_header->info_header.header_size == g_hsize &&
+                                      40 <= g_hsize && g_hsize <= 124 && g_fpos == (size_t)12 + g_hsize))
+__CPROVER_ensures(verif_exc == 0 ==> ((out_header->info_header.bit_depth == 24 || out_header->info_header.bit_depth == 32) && out_header->info_header.num_planes == 1))
+/* negative biHeight = top-down; the stream is positioned on bfOffBits */
+__CPROVER_ensures(verif_exc == 0 ==> (*out_w == out_header->info_header.width && *out_rev == (out_header->info_header.height < 0) &&
+                                      (int64_t)*out_h == (out_header->info_header.height < 0 ? -(int64_t)out_header->info_header.height : (int64_t)out_header->info_header.height) &&
+                                      g_seek_to == out_header->file_header.data_offset));
 #endif
 
 #endif
